@@ -185,6 +185,14 @@ where
             // accumulate into buffer, do nothing
             self.buffer.extend(buf);
             Ok(buf.len())
+        } else if self.buffer.len() == total_len {
+            // the buffer is already full:
+            // send the PDU first, so that this call consumes at least one byte
+            // (returning `Ok(0)` would make `write_all` fail with `WriteZero`)
+            self.dispatch_pdu()?;
+            let buf = &buf[..buf.len().min(total_len - self.buffer.len())];
+            self.buffer.extend(buf);
+            Ok(buf.len())
         } else {
             // fill in the rest of the buffer, send PDU,
             // and leave out the rest for subsequent writes
@@ -582,6 +590,13 @@ pub mod non_blocking {
                                     if written == this.buffer.len() {
                                         // If we wrote the whole buffer, reset `self.buffer`
                                         this.buffer.truncate(PDU_PDV_HEADER_SIZE);
+                                        if consumed == 0 {
+                                            // the buffer was already full before this call:
+                                            // consume from `buf` now instead of returning `Ok(0)`
+                                            let n = buf.len().min(total_len - this.buffer.len());
+                                            this.buffer.extend(&buf[..n]);
+                                            return Poll::Ready(Ok(n));
+                                        }
                                         return Poll::Ready(Ok(consumed));
                                     }
                                 }
@@ -624,6 +639,15 @@ pub mod non_blocking {
                                     // If we wrote the whole buffer, reset `self.buffer` and change state back to ready
                                     this.buffer.truncate(PDU_PDV_HEADER_SIZE);
                                     this.state = WriteState::Ready;
+                                    if consumed == 0 {
+                                        // the buffer was already full before the write started:
+                                        // consume from `buf` now instead of returning `Ok(0)`
+                                        let total_len =
+                                            (this.max_pdu_length + PDU_HEADER_SIZE) as usize;
+                                        let n = buf.len().min(total_len - this.buffer.len());
+                                        this.buffer.extend(&buf[..n]);
+                                        return Poll::Ready(Ok(n));
+                                    }
                                     return Poll::Ready(Ok(consumed));
                                 }
                             }
